@@ -30,12 +30,24 @@ CHECKS = {
          'finite-sum lemmas; M-steps (Gillespie direct method, thinning, Sellke) cited; termination not proved.',
     technique='contract-based deductive verification: loop invariants + draw-site obligations on the real simulators, modular callee contracts, z3 (quantified, unbounded) + finite-scope refutation'),
  'C02': dict(
-    category='proof',
-    text='Gillespie_SIS: same view/rate invariants with link re-insertion on recovery, draw-site obligations, all ways of passing the initial '
-         'condition, weighted and unweighted, for graphs of any order. fast_SIS is NOT yet under contract (listed as not covered in the evidence).',
+    category='other',
+    text='Gillespie_SIS (unbounded): view/rate loop invariants with link re-insertion on recovery, draw-site obligations, all ways of passing the initial '
+         'condition, weighted and unweighted, graphs of any order. fast_SIS: _find_next_trans_SIS_Markov (the queued transmission time is current time + Exp(rate), re-drawn '
+         'from the target\'s recovery time when it falls before it, queued only if before the source\'s recovery and tmax) and _process_rec_SIS_ are under unbounded contract; '
+         '_process_trans_SIS_Markov and the driver only by a bounded native stand-in (scripted random source: every Gillespie_SIS waiting time uses the total rate of the '
+         'current state; fixed-seed state distribution of both simulators on a 3-node path against the master equation, 6 standard errors) - hence level other.',
     design_ref='DESIGN.md section 5 "C02"',
-    note='As C01. Partial: only the Gillespie_SIS half of the property is decided; memorylessness argument for fast_SIS cited, not checked.',
-    technique='contract-based deductive verification: loop invariants + draw-site obligations, z3'),
+    note='As C01. Memorylessness argument for the fast_SIS re-draw cited. The statistical stand-in is deterministic (fixed seeds).',
+    technique='contract-based deductive verification: loop invariants + draw-site obligations, z3; bounded native comparison with the exact master equation for fast_SIS'),
+ 'C03': dict(
+    category='other',
+    text='Bounded stand-in only (labelled bounded): Gillespie_simple_contagion runs unmodified under a scripted random source on 7 model specifications x directed/undirected '
+         '5-node graphs x 6 initial conditions; at EVERY step the rate handed to expovariate equals the sum of the rates of the transitions enabled in the current statuses '
+         '(recomputed from the two specification graphs, weights and rate functions), exactly one node changes per event and the change is an enabled transition; over a grid '
+         'of the selecting uniform draw each transition type is chosen with its rate share.',
+    design_ref='DESIGN.md section 5 "C03"',
+    note='No unbounded contract: the candidate bookkeeping (dicts keyed by specification edges, nested closures) is outside the VC generator\'s subset. Gillespie direct method cited.',
+    technique='bounded check of the real function against an independent rate oracle with a scripted random source (stand-in for contracts out of reach)'),
  'C04': dict(
     category='proof',
     text='The row invariant (equal lengths, times[0]=tmin, non-decreasing, < tmax, counts >= 0 summing to N, consecutive rows differ by one legal move) '
@@ -91,6 +103,23 @@ CHECKS = {
     design_ref='DESIGN.md section 5 "C14"',
     note='First-order comparison at tmin; iteration order only affects floating-point rounding (as the property allows).',
     technique='opacity typing analysis (all inputs) + relational symbolic execution of the real code on relabelled graphs (bounded)'),
+ 'C09': dict(
+    category='other',
+    text='Unbounded for the event-driven SIR simulators: _process_trans_SIR_ appends (time, source, target) exactly when the target turns S->I at that time; the global event-loop '
+         'invariant (queue rule lemma) keeps one entry per infection, source-less entries = the initial nodes at tmin, sourced entries along an edge from an already infected node '
+         'not after its recovery, non-decreasing times, every node target of at most one entry (forest). Constructor binding of every Simulation_Investigation(...) call. '
+         'All other simulators (Gillespie, SIS, simple contagion, discrete) only by the bounded native stand-in - hence level other.',
+    design_ref='DESIGN.md section 5 "C09"',
+    note='As C01/C11; transmissions()/transmission_tree() accessors checked natively.',
+    technique='contract-based deductive verification (handler postcondition + global invariant via queue-rule lemma, z3) + constructor-binding analysis + bounded native stand-in'),
+ 'C10': dict(
+    category='other',
+    text='_transform_to_node_history_ (SIR branch) under unbounded contract: every node gets a history starting at tmin, infection/recovery entries in time order; constructor binding. '
+         'summary/t/S/I/R/node_status/get_statuses against brute-force head counts on all short histories (bounded, exhaustive over a small alphabet); both return modes of '
+         'every simulator agree under the same seeds (bounded).',
+    design_ref='DESIGN.md section 5 "C10"',
+    note='The accessor methods use numpy searchsorted/cumsum pipelines that are only checked by the bounded stand-in.',
+    technique='contract-based deductive verification of the history builder (z3) + constructor-binding analysis + bounded exhaustive native check of the accessors'),
  'C11': dict(
     category='proof',
     text='Local semantic contracts of the real handlers and queue, for all states: L1 no lost relaxation, L2 no spurious event (edge, time = infection + delay, '
@@ -110,6 +139,21 @@ CHECKS = {
     design_ref='DESIGN.md section 5 "C12"',
     note='Trusted as C01; M (cited): layer recurrence => BFS distance, independent Bernoulli contacts => Reed-Frost chain; the transmission rule is a function of the ordered pair within a step.',
     technique='contract-based deductive verification: nested loop invariants over the generation step, call-back argument obligations, z3; delegation-binding analysis'),
+ 'C13': dict(
+    category='other',
+    text='Bounded stand-in only (labelled bounded): fast_nonMarkov_SIS against a plain reference semantics (recover exactly `duration` after each infection, attempt each neighbour at '
+         'every listed delay, infect iff susceptible then) on 150 random graphs <= 6 nodes with table-driven, tie-free durations and delay lists (sorted and unsorted); node histories must coincide.',
+    design_ref='DESIGN.md section 5 "C13"',
+    note='Equality in law with fast_SIS under exponential rules is not decided. No unbounded contract for _process_trans_SIS_nonMarkov_.',
+    technique='bounded check of the real simulator against an independent reference semantics (stand-in for contracts out of reach)'),
+ 'C15': dict(
+    category='proof',
+    text='Gillespie_complex_contagion: loop invariant "rates[u] = rate_function(G,u,status,parameters) for every node with positive rate, total = their sum" established by the '
+         'initialisation loop and preserved by the main loop provided the influence set covers every node whose rate changes (the documented precondition); the waiting time is drawn '
+         'with the total rate; the actor through the C16 contracts; the new status comes from transition_choice; rows consistent; for graphs of any order.',
+    design_ref='DESIGN.md section 5 "C15"',
+    note='As C01. User call-backs modelled as uninterpreted functions of (node, status map); influence-set precondition is the documented one.',
+    technique='contract-based deductive verification: loop invariants with call-back contracts, draw-site obligations, z3'),
  'C17': dict(
     category='proof',
     text='estimate_SIR_prob_size_from_dir_perc: the component used is a largest SCC (assumed networkx contract), PE*N = #{x | x reaches u}, AR*N = #{x | reachable from u} '
